@@ -96,6 +96,29 @@ Theorem C20_late_serial : forall inb scr sched,
 Proof. intros inb scr sched. apply (serial false inb 0 scr [] sched). Qed.
 Print Assumptions C20_late_serial.
 
+(* ---- do the bytes an OnData invocation was offered stay readable until it returns?  Not always. ----
+   Close() reads callbackInProcess = 0; an arrival then starts a goroutine whose OnData begins; close() wins
+   its CAS and waits for the goroutine; the NEXT arrival finds the state closed and the event loop runs
+   fillDataToReadBuffer's closed path: pendingData.clear() AND recvBuf.recycle() — on the buffer the running
+   OnData is reading (with shared-memory slices: the buffers go back to the free list under its zero-copy
+   view).  Reproduced on the real code under the scheduler (signature
+   "C20:event-loop-recycles-recvBuf-while-OnData-is-reading"). *)
+Definition C20_view_stable : Prop := view_stable_stmt.
+Theorem C20_view_stable_refuted : ~ C20_view_stable.
+Proof.
+  intros H.
+  specialize (H true [EData [1; 2; 3]; EData [4]] 1%nat [(3%nat, false)] []
+                ([WClo 0; WClo 0] ++ repeat WEv 6 ++ repeat (WGor 0) 3 ++ [WClo 0; WClo 0] ++ repeat WEv 3)).
+  vm_compute in H. assert (E : [] = [1; 2; 3]) by (apply H; discriminate). discriminate.
+Qed.
+Print Assumptions C20_view_stable_refuted.
+(* the event loop touches recvBuf only in that closed path *)
+Theorem C20_view_stable_partial : forall cb0 inb nc scr ups sched,
+  let s := run sched (init cb0 inb nc scr ups) in
+  st s <> c_streamClosed -> recv (step s WEv) = recv s.
+Proof. exact view_stable_partial. Qed.
+Print Assumptions C20_view_stable_partial.
+
 (* non-vacuity 1: three messages; the second arrives while OnData runs, the third just after the goroutine
    cleared the flag and before its re-check; OnData consumes 1, 0, 2, then everything; the run is quiescent,
    open, and satisfies the hypotheses of C20_quiescent *)
